@@ -639,6 +639,9 @@ def _summ(x):
 
 def classify(case, io, drv):
     steps = io.get("steps") or []
+    cut = next((k for k, (a, b) in enumerate(zip(steps, drv["model"])) if a == b == {"hang": True}), None)
+    if cut is not None:
+        steps, drv = steps[:cut], {"model": drv["model"][:cut], "spec": drv["spec"][:cut]}
     d = _first_diff(steps, drv["spec"]) or _first_diff(steps, drv["model"])
     if d is None:
         return "no-difference"
